@@ -9,6 +9,17 @@ TB = ("Coq 8.16.1 kernel; hand-written Gallina model tied to /repo by the corres
       "OCaml runner/main.ml; Python harness. See DESIGN.md section 7.")
 
 CLAIMED = {
+ "C01": dict(
+   text="Closure theorem api_program_wf: every value returned by any term of public-API calls "
+        "(constructor, >>, @, dagger, forward/reversed slices, indexing, interchange, each yielded "
+        "normalisation step, normal_form, swap, permutation, cups, caps, transpose, functor application) "
+        "is well-typed (layer view chains from dom to cod, boxes/offsets agree with it), by induction on "
+        "the program, plus constructor_accepts_iff_well_typed and refusal iff theorems, all about the "
+        "Gallina model; the model is tied to /repo by differential testing of ~16k programs (quick) in the "
+        "monoidal and rigid classes comparing full outcomes incl. layers, and an independent range-checked "
+        "re-scan oracle on every returned diagram; the DISCOPY_VERIF hook re-scans diagrams built inside "
+        "the library.",
+   design="6/C01", technique="Coq proof (induction over API programs) + extracted-model correspondence + re-scan oracle"),
  "C10": dict(
    text="Theorems about the Gallina model of monoidal.Diagram.swap/permutation (wire map of the "
         "returned swap network, codomain, adjacent swaps only, refusal of non-permutations) for all "
@@ -41,7 +52,7 @@ man = {
  "setup_cmd": "./setup.sh",
  "hooks": {"guard": "DISCOPY_VERIF", "enable": "export DISCOPY_VERIF=1 (set by ./check); no build step, discopy is imported from /repo's working tree",
            "baseline_off_cmd": "cd /repo && env -u DISCOPY_VERIF /venv/bin/python -m pytest -ra -q -p no:cacheprovider --timeout=900 --continue-on-collection-errors",
-           "source_commits": [], "add_only": True},
+           "source_commits": ["94fb4a3"], "add_only": True},
  "engines": [{"name": "coq-core", "path": "coq/Core", "serves_properties": sorted(CLAIMED),
               "kind_free_text": "Gallina model of the structural core of DisCoPy + Coq theorems + extracted OCaml runner for differential testing against /repo"}],
  "checks": checks,
